@@ -90,6 +90,9 @@ def jobs(tier):
     add(N + 'nb_sample', dict(d=1, n=1, cache=0, n_neural=2), block=B)
     add(N + 'nb_pool_merge', dict(d=1, pool=2, unroll=4, members_in_cube=True,
                                   open_uniform=True), block=B)
+    # with proposals outside the cube: the outer bound rejects in the workers
+    add(N + 'nb_pool_merge', dict(d=1, pool=2, unroll=3, open_uniform=True),
+        block=B, max_paths=6000)
     if thorough:
         add(U + 'sample', dict(d=2, npm=3, sizes=[3, 3, 3], n=2, cache=1))
         add(N + 'nb_sample', dict(d=2, n=1, cache=1, periodic=[1],
